@@ -71,7 +71,25 @@ def _stamp_sampler_class(tp, torch):
 
 
 def _devices(torch):
-    return {0: "cpu", 1: torch.device("cpu")}
+    """every legal spelling of the devices of this machine (CPU only).  Note torch.device("cpu") != torch.device("cpu:0")
+    although both name the same memory: a state machine that keys anything on the device argument shows here."""
+    return {0: "cpu", 1: torch.device("cpu"), 2: "cpu:0", 3: torch.device("cpu", 0)}
+
+
+def _interval_arg(case, k):
+    k = _ival(k)
+    return float(k) if case.get("float_iv") and k != math.inf else k
+
+
+def _make_static(tp, case, sampler, k, form="make"):
+    """the ways a static sampler comes into being / is re-staticised"""
+    if form == "ctor":
+        return tp.samplers.StaticSampler(sampler, _interval_arg(case, k))
+    if form == "default" and k == "inf":
+        return sampler.make_static()                       # default argument = math.inf
+    if form == "kw":
+        return sampler.make_static(resample_interval=_interval_arg(case, k))
+    return sampler.make_static(_interval_arg(case, k))
 
 
 def _ival(k):
@@ -88,6 +106,9 @@ def _make_underlying(case, tp, torch):
     elif u == "empty":
         cls = _recording_sampler(tp.samplers.EmptySampler)
         s = cls()
+    elif u == "empty_cls":
+        cls = _recording_sampler(tp.samplers.EmptySampler)
+        s = cls()          # placeholder for the recorder fields; the sampler under test is PointSampler.empty()
     else:
         rect = tp.domains.Parallelogram(X, [0, 0], [2, 0], [0, 1])
         if u == "uniform":
@@ -125,9 +146,13 @@ def run_static(case):
     cur = under
     start = case["start"]
     k = None                       # interval in effect; None = not static
-    if start[0] == "static":
-        cur = cur.make_static(_ival(start[1]))
+    if case["under"] == "empty_cls":
+        cur = tp.samplers.PointSampler.empty()          # the library's own empty static sampler (interval inf)
+        k = "inf"
+    elif start[0] == "static":
+        cur = _make_static(tp, case, cur, start[1], start[2] if len(start) > 2 else "make")
         k = start[1]
+    P1 = tp.spaces.Points(torch.tensor([[0.25]]), tp.spaces.R1("p"))   # a parameter row some calls pass along
     empty = case["n"] == 0
     seen = []                      # distinct returned sets, in order of first appearance
     since = []                     # ids returned since the sampler became static
@@ -142,7 +167,8 @@ def run_static(case):
             continue
         if op[0] == "m":
             was_static = cur.is_static
-            cur = cur.make_static(_ival(op[1]))
+            cur = _make_static(tp, case, cur, op[1], "ctor" if (len(op) > 2 and not was_static) else
+                               ("default" if len(op) > 2 else "make"))
             if not cur.is_static:
                 problems.append((j, "make_static did not return a static sampler"))
             if not was_static:
@@ -154,7 +180,9 @@ def run_static(case):
         before = len(under.rec_draws)
         ncall += 1
         try:
-            if d == 0 and case.get("default_dev") and j % 2 == 0:
+            if len(op) > 2 and op[2]:          # with a parameter row (positional or by keyword)
+                out = cur.sample_points(P1, DEV[d]) if op[2] == 1 else cur.sample_points(device=DEV[d], params=P1)
+            elif d == 0 and case.get("default_dev") and j % 2 == 0:
                 out = cur.sample_points()
             else:
                 out = cur.sample_points(device=DEV[d])
@@ -221,7 +249,7 @@ def run_static(case):
 
 
 QUERIES = ["len", "bool", "repr", "is_static/is_adaptive", "iter", "len(product)", "len(concat)", "len(append)",
-           "PeriodicCondition(non_periodic_sampler=s)", "AdaptiveWeightsCondition(sampler=s)"]
+           "PeriodicCondition(non_periodic_sampler=s)", "AdaptiveWeightsCondition(sampler=s)", "set_length"]
 
 
 def _query(tp, torch, s, kind):
@@ -252,6 +280,8 @@ def _query(tp, torch, s, kind):
                                                 non_periodic_sampler=s)
             else:
                 tp.conditions.AdaptiveWeightsCondition(model, s, lambda u: u)
+        elif kind == 10:
+            s.set_length(7)      # overrides what len() reports; nothing else
     except Exception:  # noqa: e.g. len() of a density sampler is unknown, adaptive weights need a static sampler
         pass
 
@@ -259,6 +289,8 @@ def _query(tp, torch, s, kind):
 def static_line(case):
     st = case["start"]
     start = "plain" if st[0] == "plain" else f"static {st[1]}"
+    if case["under"] == "empty_cls":
+        start = "static inf"
     ops = " ".join(f"{o[0]} {o[1]}" for o in case["ops"])
     return f"static {0 if case['n'] == 0 else 1} {start} {len(case['ops'])} {ops}".rstrip()
 
@@ -305,6 +337,37 @@ def _make_domain(case, tp, torch):
     return dom, inside
 
 
+def _loss_tensor(torch, case, ms, dtype):
+    """the loss vector of a call: m/64, or (scale = [offset, spread]) offset + spread * m/64 rounded to the tensor's dtype;
+    returns the tensor and its entries as exact rationals (every float is one)"""
+    if case.get("scale"):
+        off, spread = case["scale"]
+        t = torch.tensor([off + spread * (m / DEN) for m in ms], dtype=torch.float64).to(dtype)
+    else:
+        t = torch.tensor([m / DEN for m in ms], dtype=dtype)
+    return t, [Fraction(v) for v in t.to(torch.float64).tolist()]
+
+
+def _fmt(x):
+    return str(x) if x.denominator <= 1024 else repr(float(x))
+
+
+def _ratio_of(case):
+    """the resample_ratio exactly as the sampler receives it (a double)"""
+    return Fraction(float(Fraction(case["ratio"])))
+
+
+def _margin(case, lo, hi, factor, exact):
+    """bound for the floating-point error of `min + (max - min) * factor` as torch evaluates it (unit roundoff u of the loss
+    dtype: difference, product, conversion of the factor, sum), times 4.  0 where the arithmetic is exact (dyadic m/64 losses
+    with dyadic k/16 factors): there ties loss == threshold are decided exactly."""
+    if exact:
+        return Fraction(0)
+    u = Fraction(1, 2 ** 53) if case.get("f64") else Fraction(1, 2 ** 24)
+    f = max(abs(factor), 1)
+    return 4 * u * (4 * (hi - lo) * f + max(abs(lo), abs(hi)))
+
+
 def run_adaptive(case):
     tp = common.use_repo()
     import torch
@@ -320,6 +383,11 @@ def run_adaptive(case):
     else:
         s = tp.samplers.AdaptiveThresholdRejectionSampler(dom, float(Fraction(case["ratio"])), filter_fn=filt, **kw)
     dtype = torch.float64 if case.get("f64") else torch.float32
+    DEV = _devices(torch)
+    palette = case.get("devs") or [0]
+    extra = {}
+    if case.get("params"):          # the same two parameter rows in every call: n points per row
+        extra["params"] = tp.spaces.Points(torch.tensor([[0.5], [1.5]]), tp.spaces.R1("p"))
     direct = not case.get("filter")            # draws of the domain are the fresh sample, row by row
     problems, texts, model_calls = [], [], []
     n0 = None
@@ -338,7 +406,18 @@ def run_adaptive(case):
             # the number of points of a density sampler is only known after its first draw: expand the loss vector now
             import random
             call = dict(call, loss=_gen_loss(random.Random(f"loss:{call['loss_seed']}"), n0 or 1))
-        loss = None if call is None else [Fraction(m, DEN) for m in call["loss"]]
+        loss_t = None
+        if call is None:
+            loss = None
+        else:
+            loss_t, loss = _loss_tensor(torch, case, call["loss"], dtype)
+            if case.get("grad"):
+                loss_t.requires_grad_(True)      # as a condition passes it: the un-detached loss of the last step
+        dev = DEV[palette[tj % len(palette)]]
+        if palette != [0] or tj % 3:
+            extra["device"] = dev
+        else:
+            extra.pop("device", None)
         us = []           # candidates for the per-row thresholds: uniform draws with one value per loss entry made during the
         #                   call OUTSIDE the domain's own sampling (wherever in the call: before or after the candidate points,
         #                   torch.rand or torch.rand_like, any dtype/device arguments)
@@ -364,9 +443,11 @@ def run_adaptive(case):
         try:
             with mock.patch("torch.rand_like", rand_like), mock.patch("torch.rand", rand):
                 if loss is None:
-                    out = s.sample_points() if j % 2 else s.sample_points(unreduced_loss=None)
+                    out = s.sample_points(**extra) if j % 2 else s.sample_points(unreduced_loss=None, **extra)
+                elif case.get("pos"):
+                    out = s.sample_points(loss_t, **extra)
                 else:
-                    out = s.sample_points(unreduced_loss=torch.tensor([float(x) for x in loss], dtype=dtype))
+                    out = s.sample_points(unreduced_loss=loss_t, **extra)
         except Exception as e:  # noqa: only a loss vector of the wrong length may be rejected
             texts.append("err:shape")
             if loss is None or len(loss) == (n0 or len(loss)):
@@ -406,17 +487,18 @@ def run_adaptive(case):
             expect = ["replace"] * n0
         else:
             lo, hi = min(loss), max(loss)
-            ratio = Fraction(case["ratio"]) if not rnd else None
+            ratio = _ratio_of(case) if not rnd else None
+            dyadic = not case.get("scale") and (injected[0] if rnd else ratio.denominator <= RDEN)
             expect = []
             for i in range(n0):
                 if rnd and uvals is None:
                     # thresholds lie in [lo, hi): a row of maximal loss is always kept
                     expect.append("keep" if loss[i] == hi else "either")
                     continue
-                thr = lo + (hi - lo) * (ratio if not rnd else uvals[i])
-                # float32 rounding of (hi-lo)*u and of the sum is below 2^-24 (|hi-lo| + max(|lo|,|hi|)); 8x safety
-                if rnd and hi > lo and not injected[0] and \
-                        abs(loss[i] - thr) <= Fraction(1, 2 ** 21) * ((hi - lo) + max(abs(lo), abs(hi))):
+                factor = ratio if not rnd else uvals[i]
+                thr = lo + (hi - lo) * factor
+                # exact rational threshold; rows closer to it than the rounding error of torch's evaluation are not decidable
+                if abs(loss[i] - thr) <= _margin(case, lo, hi, factor, exact=dyadic or hi == lo) and not (dyadic or hi == lo):
                     expect.append("either")
                     undecided = True
                 else:
@@ -424,9 +506,9 @@ def run_adaptive(case):
         org = []
         for i in range(n0):
             if expect[i] == "keep" and not same[i]:
-                problems.append((j, f"adaptive call {tj + 1}: row {i} has previous loss {loss[i]} >= threshold and must be kept, but it was replaced"))
+                problems.append((j, f"adaptive call {tj + 1}: row {i} has previous loss {_fmt(loss[i])} >= threshold and must be kept, but it was replaced"))
             if expect[i] == "replace" and same[i]:
-                why = "no loss was passed" if (prev is None or loss is None) else f"previous loss {loss[i]} is below the threshold"
+                why = "no loss was passed" if (prev is None or loss is None) else f"previous loss {_fmt(loss[i])} is below the threshold {_fmt(lo + (hi - lo) * (_ratio_of(case) if not rnd else uvals[i]))} (min {_fmt(lo)}, max {_fmt(hi)})"
                 problems.append((j, f"adaptive call {tj + 1}: row {i} must be replaced by a fresh point ({why}) but it was kept"))
             if not same[i] and expect[i] != "keep":
                 if rows[i] in all_rows:
@@ -467,7 +549,10 @@ def run_adaptive_stat(case):
     n, reps = case["n"], case["reps"]
     s = tp.samplers.AdaptiveRandomRejectionSampler(dom, n_points=n)
     loss_m = [STAT_LEVELS[i % len(STAT_LEVELS)] for i in range(n)]
-    loss = torch.tensor([m / DEN for m in loss_m])
+    dtype = torch.float64 if case.get("f64") else torch.float32
+    loss, exact = _loss_tensor(torch, case, loss_m, dtype)
+    lo, hi = min(exact), max(exact)
+    pdoc = {m: (exact[STAT_LEVELS.index(m)] - lo) / (hi - lo) for m in STAT_LEVELS}     # from the values the tensor really holds
     problems = []
     prev = s.sample_points().as_tensor.detach().clone()
     kept = {m: 0 for m in STAT_LEVELS}
@@ -491,13 +576,13 @@ def run_adaptive_stat(case):
     freq = {}
     if not problems:
         for m in STAT_LEVELS:
-            pdoc = Fraction(m - STAT_LEVELS[0], STAT_LEVELS[-1] - STAT_LEVELS[0])
             f = kept[m] / max(1, total[m])
-            freq[str(pdoc)] = round(f, 4)
-            if abs(f - float(pdoc)) > STAT_TOL:
-                problems.append((0, f"random variant: rows with normalised loss {pdoc} were kept in {kept[m]} of {total[m]} calls "
-                                    f"(frequency {f:.3f}); the documented keep probability is {float(pdoc):.2f} (tolerance {STAT_TOL})"))
-    return dict(text="keep frequencies " + json.dumps(freq, sort_keys=True), problems=problems, line=None)
+            freq[f"{float(pdoc[m]):.3f}"] = round(f, 4)
+            if abs(f - float(pdoc[m])) > STAT_TOL:
+                problems.append((0, f"random variant, loss vector {sorted(set(loss.tolist()))} ({'float64' if case.get('f64') else 'float32'}): rows with loss "
+                                    f"{float(exact[STAT_LEVELS.index(m)])!r} (normalised {float(pdoc[m]):.3f}) were kept in {kept[m]} of {total[m]} calls "
+                                    f"(frequency {f:.3f}); the documented keep probability is {float(pdoc[m]):.3f} (tolerance {STAT_TOL})"))
+    return dict(text=f"keep frequencies (scale {case.get('scale')}) " + json.dumps(freq, sort_keys=True), problems=problems, line=None)
 
 
 def _model_call(rnd, loss, uvals):
@@ -513,7 +598,7 @@ def adaptive_line(case, res):
     n = res["n"] or case["n"]
     if case["kind"] == "adaptr":
         return f"adaptr {n} {len(res['calls'])} " + " ".join(res["calls"])
-    return f"adapt {n} {q(Fraction(case['ratio']))} {len(res['calls'])} " + " ".join(res["calls"])
+    return f"adapt {n} {q(_ratio_of(case))} {len(res['calls'])} " + " ".join(res["calls"])
 
 
 # ------------------------------------------------------------------------------------------
@@ -524,13 +609,20 @@ def _gen_interval(rng):
 
 
 def gen_static(rng, big=False):
-    under = rng.choice(["stamp"] * 6 + ["uniform"] * 3 + ["gauss", "lhs", "prod", "concat", "empty", "stamp0"])
+    under = rng.choice(["stamp"] * 6 + ["uniform"] * 3 + ["gauss", "lhs", "prod", "concat", "empty", "stamp0", "empty_cls"])
     n = rng.choice([1, 2, 3, 5]) if under == "stamp" else rng.choice([2, 3, 6])
-    if under == "empty":
+    if under in ("empty", "empty_cls"):
         n = 0
     if under == "stamp0":
         under, n = "stamp", 0
     start = ["plain"] if rng.random() < 0.3 else ["static", _gen_interval(rng)]
+    if start[0] == "static":
+        start.append(rng.choice(["make", "make", "kw", "ctor", "default" if start[1] == "inf" else "make"]))
+    if under == "empty_cls":
+        start = ["static", "inf", "make"]
+    # the device spellings used within this history
+    palette = rng.choice([[0], [0, 0, 1], [0, 2], [0, 2], [1, 3], [2], [3], [0, 1, 2, 3], [0, 1, 2, 3]])
+    with_params = under == "stamp" and n > 0 and rng.random() < 0.15
     length = rng.randint(1, 60 if not big else 400)
     p_m = rng.choice([0.0, 0.0, 0.05, 0.15])
     p_q = rng.choice([0.0, 0.1, 0.1, 0.3])
@@ -540,15 +632,17 @@ def gen_static(rng, big=False):
     for _ in range(length):
         x = rng.random()
         if x < p_m:
-            ops.append(["m", _gen_interval(rng)])
+            ops.append(["m", _gen_interval(rng)] + ([1] if rng.random() < 0.3 else []))
         elif x < p_m + p_q:
             ops.append(["q", rng.randrange(len(QUERIES))])
+        elif with_params:
+            ops.append(["s", rng.choice(palette), rng.choice([0, 1, 2])])
         else:
-            ops.append(["s", rng.choice([0, 0, 1])])
+            ops.append(["s", rng.choice(palette)])
     if not any(o[0] == "s" for o in ops):
         ops.append(["s", 0])
     return dict(kind="static", under=under, n=n, start=start, ops=ops, tseed=rng.randint(0, 10 ** 6),
-                default_dev=rng.random() < 0.5)
+                default_dev=rng.random() < 0.5, float_iv=rng.random() < 0.2)
 
 
 def _gen_loss(rng, n):
@@ -566,6 +660,10 @@ def _gen_loss(rng, n):
     return [rng.randint(-512, 512) for _ in range(n)]
 
 
+SCALES = [[0.0, 1e-12], [0.0, 1e-9], [0.0, 1e-6], [0.0, 1e-3], [0.0, 1e3], [0.0, 1e6], [1e3, 8e-3], [1e3, 1.0], [-1e3, 1e-2],
+          [1e6, 1.0], [1.0, 1e-7], [5.0, 3e-5]]      # [offset, spread]: loss = offset + spread * m/64
+
+
 def gen_adaptive(rng, rnd):
     n = rng.choice([1, 2, 3, 4, 5, 8, 13])
     ncalls = rng.randint(1, 14)
@@ -573,6 +671,15 @@ def gen_adaptive(rng, rnd):
                 tseed=rng.randint(0, 10 ** 6), f64=rng.random() < 0.2)
     if not rnd:
         case["ratio"] = str(Fraction(rng.choice([-4, 0, 1, 2, 4, 4, 8, 8, 8, 12, 15, 16, 16, 20]), RDEN))
+        if rng.random() < 0.2:
+            case["ratio"] = rng.choice(["1/10", "3/10", "1/3", "9/10", "99/100", "1/1000"])   # not dyadic: judged with margin
+    if rng.random() < 0.35:
+        case["scale"] = rng.choice(SCALES)          # losses across scales and offsets (judged exactly up to the rounding margin)
+        if case["scale"] in ([1e6, 1.0], [1.0, 1e-7], [5.0, 3e-5]):
+            case["f64"] = True                      # float32 cannot resolve these spreads
+    case["devs"] = rng.choice([[0], [0], [0, 1], [0, 2], [2, 3, 0, 1], [3]])
+    case["pos"] = rng.random() < 0.2
+    case["grad"] = rng.random() < 0.25
     r = rng.random()
     if r < 0.12:
         case["filter"] = True
@@ -589,6 +696,9 @@ def gen_adaptive(rng, rnd):
             lazy = True
         if rng.random() < 0.4:
             case["setvol"] = True
+    if r >= 0.5 and r < 0.58:
+        case["params"] = True           # two parameter rows: 2n points, known after the first call
+        lazy = True
     calls = []
     bad = rng.random() < 0.06 and not lazy
     for j in range(ncalls):
@@ -643,6 +753,8 @@ FIXED = [
     dict(kind="static", under="stamp", n=2, start=["static", 5],
          ops=[["s", 0]] * 3 + [["m", 2]] + [["s", 0]] * 4 + [["m", 4]] + [["s", 1]] * 7 + [["m", "inf"]] + [["s", 0]] * 5),
     dict(kind="static", under="stamp", n=2, start=["static", "inf"], ops=[["s", 0]] * 4 + [["m", 1]] + [["s", 0]] * 3),
+    dict(kind="static", under="uniform", n=3, start=["static", 2], ops=[["s", 0], ["s", 2]] * 4),
+    dict(kind="static", under="stamp", n=2, start=["static", 3, "ctor"], ops=[["s", d] for d in (0, 1, 2, 3, 2, 0, 3, 1, 0, 2, 2, 1)]),
     dict(kind="static", under="uniform", n=3, start=["static", 2], ops=[["q", 0]] + [["s", 0]] * 5),
     dict(kind="static", under="stamp", n=2, start=["static", 3], ops=[["q", 5]] + [["s", 0]] * 7),
     dict(kind="static", under="stamp", n=2, start=["static", 3], ops=[["s", 0], ["q", 0], ["s", 0], ["q", 9], ["s", 0], ["s", 0], ["q", 8], ["s", 0]]),
@@ -650,6 +762,10 @@ FIXED = [
     dict(kind="adapt", dom="depdisc", n=5, density=3.0, ratio="1/2", calls=[None, dict(loss_seed=1), dict(loss_seed=2), None, dict(loss_seed=3)]),
     dict(kind="adapt", dom="depdisc", n=5, density=2.0, setvol=True, ratio="1/4", calls=[None, dict(loss_seed=4), dict(loss_seed=5)]),
     dict(kind="adaptr", dom="prodbox", n=5, density=4.0, calls=[None, dict(loss_seed=6), dict(loss_seed=7)]),
+    dict(kind="adapt", dom="rect", n=5, ratio="1/2", scale=[0.0, 1e-9], calls=[None, dict(loss=[0, 64, 32, 16, 48]), dict(loss=[7, 7, 7, 7, 7])]),
+    dict(kind="adapt", dom="rect", n=5, ratio="1/2", scale=[1e3, 8e-3], f64=True, calls=[None, dict(loss=[0, 64, 32, 16, 48])]),
+    dict(kind="adapt", dom="circle", n=4, ratio="1/4", scale=[1e3, 8e-3], devs=[0, 2], calls=[None, dict(loss=[0, 512, 100, 300])]),
+    dict(kind="adaptr", dom="rect", n=4, scale=[0.0, 1e-12], f64=True, calls=[None, dict(loss=[0, 64, 32, 16], u=[0, 15, 8, 4])]),
     dict(kind="adapt", dom="rect", n=5, ratio="1/2", calls=[None, dict(loss=[0, 64, 32, 16, 48]), dict(loss=[64] * 5), None,
                                                             dict(loss=[10, 10, 20, 20, 15])]),
     dict(kind="adapt", dom="circle", n=4, ratio="1", calls=[None, dict(loss=[0, 64, 32, 64])]),
@@ -676,8 +792,10 @@ def gen_cases(ctx):
         cases.append(gen_adaptive(rng, False))
     for _ in range(ctx.scale(350, 4000)):
         cases.append(gen_adaptive(rng, True))
-    for _ in range(ctx.scale(1, 4)):
-        cases.append(dict(kind="adaptr_stat", n=60, reps=200, tseed=rng.randint(0, 10 ** 6)))
+    stat = [dict(), dict(scale=[0.0, 1e-9]), dict(scale=[1e3, 8e-3], f64=True), dict(scale=[1e3, 8e-3]), dict(scale=[0.0, 1e6]),
+            dict(scale=[0.0, 1e-12], f64=True), dict(scale=[-1e3, 1e-2]), dict(scale=[1.0, 1e-7], f64=True)]
+    for extra in stat[: ctx.scale(4, 8)]:
+        cases.append(dict(kind="adaptr_stat", n=60, reps=200, tseed=rng.randint(0, 10 ** 6), **extra))
     return cases
 
 
@@ -720,6 +838,13 @@ def judge(rep, case, res, model_reply):
         nm = sum(1 for o in case["ops"] if o[0] == "m")
         rep.count("restatic:" + ("0" if nm == 0 else "1-2" if nm <= 2 else "3+"))
         rep.count("calls:" + _lenbucket(len(case["ops"])))
+        devs = sorted({o[1] for o in case["ops"] if o[0] == "s"})
+        rep.count("devices:" + ("one spelling" if len(devs) == 1 else
+                                "cpu+torch.device(cpu)" if devs == [0, 1] else "spellings that are different torch.device objects"))
+        if len(case["start"]) > 2:
+            rep.count("static-created-by:" + case["start"][2] + (":float-interval" if case.get("float_iv") else ""))
+        if any(o[0] == "s" and len(o) > 2 and o[2] for o in case["ops"]):
+            rep.count("static:calls-with-params")
         nq = sum(1 for o in case["ops"] if o[0] == "q")
         rep.count("queries:" + ("0" if nq == 0 else "1-3" if nq <= 3 else "4+"))
         first_s = next((i for i, o in enumerate(case["ops"]) if o[0] == "s"), 0)
@@ -734,12 +859,21 @@ def judge(rep, case, res, model_reply):
         rep.count(kind + ":" + case["dom"] + (":filter" if case.get("filter") else ":density" if case.get("density") else ":n_points")
                   + (":set_volume" if case.get("setvol") else ""))
         rep.count("adaptive-calls:" + _lenbucket(len(case["calls"])))
+        rep.count("loss-scale:" + (f"offset {case['scale'][0]:g} spread {case['scale'][1]:g}" if case.get("scale") else "m/64")
+                  + (" f64" if case.get("f64") else " f32"))
+        if not kind == "adaptr":
+            rep.count("ratio:" + ("dyadic" if _ratio_of(case).denominator <= RDEN else "not dyadic"))
+        dv = sorted(set(case.get("devs") or [0]))
+        rep.count("adaptive-devices:" + ("one spelling" if len(dv) == 1 else "several spellings"))
+        for flag in ("pos", "grad", "params"):
+            if case.get(flag):
+                rep.count("adaptive:" + {"pos": "loss passed positionally", "grad": "loss requires grad", "params": "with parameter rows"}[flag])
         if any(c is not None and "q" in c for c in case["calls"]):
             rep.count("adaptive:with-queries")
         if "err:shape" in res["text"]:
             rep.count("adaptive:wrong-length-loss")
         if res.get("undecided"):
-            rep.count("adaptive-random:row-within-float32-margin (case not compared)")
+            rep.count("adaptive:row-within-rounding-margin-of-threshold (case not compared exactly)")
         if res.get("accepted_malformed"):
             rep.count("adaptive:wrong-length-loss-not-rejected (outside the property, not judged)")
         model = model_reply
